@@ -72,9 +72,16 @@ CHECKS = {
                      'with a text cell at any position; COUNTIFS with two criteria; MATCH exact (first position, #N/A) and approximate (last position <= key, beyond the last element); VLOOKUP exact over a '
                      '3x3 table with duplicate keys and every column index 0..4; CHOOSE with indices -2..5 and fractional indices.',
                 note=XH_NOTE + ' Criterion operands and text cell contents are forked over small sets (the criteria regex on a symbolic string does not finish); SUMIF/SUMIFS are skipped because the installed pandas lacks DataFrame.applymap (the statement excludes them in that case).'),
+    'C19': dict(engine='KT', technique='kernel translation: the real source of the 12 conversion functions interpreted symbolically into z3 (Int arithmetic, digit strings as code-point vectors); one unsat/sat query per obligation',
+                text='Bounded symbolic model checking by source->SMT translation: DEC2BIN/OCT/HEX for EVERY integer in -2^41..2^41 and every places -2..12 at once; BIN/OCT/HEX2DEC and the six cross '
+                     'conversions for EVERY digit string of each length 0..11 over the code points 32..126 (valid digits, both cases, invalid characters, fractional/negative strings) and every places; '
+                     'whole Number arguments read through their decimal digits; boolean -> #VALUE!, blank -> 0; there-and-back lemma. Solver models and boundary inputs are replayed on the real functions and '
+                     'pushed through the encoding (translator validation) on every run.',
+                note='Trusted: kt/kt.py (path-forking interpreter of the Python subset used), kt/models.py (int/str/len/set/bin/oct/hex/zfill/upper models), z3; Python ints as mathematical integers. '
+                     'Number arguments for octal sources are bounded to 10^5 (z3 unknown beyond).'),
 }
 NA = {
     'C12': 'persist/restore is ten lines around jsonpickle -> json (C encoder) -> gzip/file I/O; no repo-side kernel a solver can quantify over (symbolic values are realised or pickled as proxy objects at the codec boundary)',
 }
-for _p in ['C08', 'C11', 'C16', 'C18', 'C19', 'C20']:
+for _p in ['C08', 'C11', 'C16', 'C18', 'C20']:
     NA.setdefault(_p, 'check not built yet in this revision (planned: see DESIGN.md §4)')
